@@ -16,7 +16,7 @@ LEVEL = "exploration"
 RULE = (
     "case = history state (none / flat / nested / tampered manifest / missing chain / missing manifest) x command with option "
     "class (verify plain|-sf|-dh|-dh -co|-pl, diff, info, info -sf, hash, xsd-schema-check, flatten, create folder|-sf|-dr|-n|-i, "
-    "usage errors) x tree edits beforehand (so that exits 10/11/12/20/21/30/31/32/33/2 occur); class = (command, option "
+    "usage errors) x 10 % trees holding a name XML 1.0 cannot store, prefix-named siblings of nested histories x tree edits beforehand (so that exits 10/11/12/20/21/30/31/32/33/2 occur); class = (command, option "
     "class, history state, exit code)"
 )
 ASSUMPTIONS = ["atime is not part of the snapshot (reading updates it legitimately)", "mkdir of an ascmhl folder changes the mtime of the history root in that run only (OS effect, exempted; also when a failing first generation removes the folder again)"]
